@@ -1108,7 +1108,44 @@ func callBuiltin(caller *frame, callpos token.Pos, fn *ssa.Builtin, args []value
 		return &caller.defers
 	}
 
-	panic("unknown built-in: " + fn.Name())
+	switch fn.Name() {
+	case "SliceData":
+		s := args[0].([]value)
+		if cap(s) == 0 {
+			return (*value)(nil)
+		}
+		return &s[:1][0]
+	case "Slice":
+		p := args[0].(*value)
+		n := int(asInt64(args[1]))
+		if p == nil {
+			if n != 0 {
+				panic(runtimeErr("runtime error: unsafe.Slice: ptr is nil and len is not zero"))
+			}
+			return []value(nil)
+		}
+		return unsafe.Slice(p, n)
+	case "StringData":
+		c := strCells(args[0])
+		if len(c) == 0 {
+			return (*value)(nil)
+		}
+		cp := make([]value, len(c))
+		copy(cp, c)
+		if X.active {
+			guardCells(cp, flagReadOnly)
+		}
+		return &cp[0]
+	case "String":
+		p := args[0].(*value)
+		n := int(asInt64(args[1]))
+		if p == nil || n == 0 {
+			return ""
+		}
+		return mkString(unsafe.Slice(p, n))
+	}
+	unsupported("built-in %s", fn.Name())
+	return nil
 }
 
 func rangeIter(x value, t types.Type) iter {
